@@ -44,7 +44,10 @@ def closable_fields(p):
                 v = v.value
             if isinstance(v, ast.Call):
                 d = dotted(v.func) or ""
-                if d.split(".")[-1] in CLOSABLE_CTORS or d.endswith("start_server") or d.endswith("_start_passive_server") or d.endswith("open_connection"):
+                fields = field_names(p)
+                known = {fields.get("data_connection_made"), fields.get("passive_server_started")}
+                if d.split(".")[-1] in CLOSABLE_CTORS or d.endswith("start_server") or d.endswith("_start_passive_server") or d.endswith("open_connection") \
+                        or n.targets[0].attr in known:
                     out.setdefault(n.targets[0].attr, []).append(n)
     return out
 
